@@ -123,4 +123,45 @@ Proof.
     replace (i + 1 + zlen p)%Z with (i + zlen (ax :: p))%Z by (unfold zlen; cbn [length]; lia).
     destruct (negb (zmem i rng) || nondegen ax); reflexivity.
 Qed.
+
+Lemma skipn_nth_cons {A} (l : list A) (k : nat) (d : A) : (k < length l)%nat ->
+  skipn k l = nth k l d :: skipn (S k) l.
+Proof.
+  revert k; induction l as [|a l IH]; intros k Hk; cbn [length] in Hk; [lia|].
+  destruct k as [|k]; [reflexivity|].
+  change (skipn k l = nth k l d :: skipn (S k) l). apply IH. lia.
+Qed.
+(* squeeze(axis=i): axis i is dropped iff it has one point; everything else stays *)
+Lemma zmem_single (j i : Z) : zmem j [i] = (j =? i)%Z.
+Proof. unfold zmem. cbn [existsb]. apply orb_false_r. Qed.
+Lemma squeeze_int (p : part) (i : Z) (d : axis T) : (- zlen p <= i < zlen p)%Z ->
+  let k := Z.to_nat (norm_pos (zlen p) i) in
+  squeeze p (AxInt i) = Ok (if nondegen (nth k p d) then p else firstn k p ++ skipn (S k) p).
+Proof.
+  intros Hi. cbv zeta. unfold squeeze, axsel_range, fancy_idx. cbn [mapM].
+  replace ((- zlen p <=? i)%Z && (i <? zlen p)%Z) with true
+    by (symmetry; apply andb_true_iff; split; [apply Z.leb_le|apply Z.ltb_lt]; lia).
+  cbn [bind]. fold (norm_pos (zlen p) i). f_equal.
+  assert (Hn : (0 <= norm_pos (zlen p) i < zlen p)%Z).
+  { unfold norm_pos. destruct (i <? 0)%Z eqn:E; [apply Z.ltb_lt in E|apply Z.ltb_ge in E]; lia. }
+  set (i' := norm_pos (zlen p) i) in *. set (k := Z.to_nat i').
+  assert (Hk : (k < length p)%nat) by (unfold k, zlen in *; lia).
+  assert (Hsplit : p = firstn k p ++ nth k p d :: skipn (S k) p).
+  { rewrite <- (firstn_skipn k p) at 1. f_equal. apply skipn_nth_cons. exact Hk. }
+  assert (Hfl : zlen (firstn k p) = i') by (unfold zlen; rewrite firstn_length; unfold k, zlen in *; lia).
+  rewrite Hsplit at 1. rewrite keep_axes_app, Hfl.
+  rewrite keep_axes_none.
+  2:{ intros j Hj. rewrite zmem_single. apply Z.eqb_neq. lia. }
+  cbn [keep_axes]. rewrite zmem_single, Z.eqb_refl. cbn [negb orb].
+  rewrite keep_axes_none.
+  2:{ intros j Hj. rewrite zmem_single. apply Z.eqb_neq. lia. }
+  destruct (nondegen (nth k p d)); [symmetry; exact Hsplit | reflexivity].
+Qed.
+Lemma squeeze_int_out_of_range (p : part) (i : Z) :
+  (i < - zlen p \/ zlen p <= i)%Z -> squeeze p (AxInt i) = IndexErr.
+Proof.
+  intros Hi. unfold squeeze, axsel_range, fancy_idx. cbn [mapM].
+  replace ((- zlen p <=? i)%Z && (i <? zlen p)%Z) with false; [reflexivity|].
+  symmetry. apply andb_false_iff. destruct Hi; [left; apply Z.leb_gt|right; apply Z.ltb_ge]; lia.
+Qed.
 End Axes.
